@@ -21,6 +21,7 @@ func init() {
 		Assumptions: []string{"sync/atomic operations are atomic; len(map) under its mutex is a consistent count"},
 	}
 	reg("C13.writers", "CALLS", "who-may-write table for every message counter", 14, c13writers)
+	reg("C13.callers", "CALLS", "who-may-call table: each counting function is called only from the transition it counts", 12, c13callers)
 	reg("C13.pairing", "PATH", "counter updates happen on the success side of their transition, with the right delta", 9, c13pairing)
 	reg("C13.mapping", "SHAPE", "stats fields are filled from the like-named sources; text and JSON share one snapshot; filters by exact key", 30, c13mapping)
 }
@@ -103,6 +104,80 @@ func c13writers(c *an.Ctx) {
 		for _, w := range row.writers {
 			if _, ok := got[w]; !ok {
 				c.Bad(nil, "writer of "+row.typ+"."+row.field+": "+w, token.NoPos, w+" no longer updates "+row.typ+"."+row.field+": the transition is not counted", nil)
+			}
+		}
+	}
+}
+
+// usersOf lists the repo functions that reference target: static calls, go/defer, method values, and interface
+// invocations of a like-named method on an interface the receiver type implements.
+func usersOf(c *an.Ctx, target *ssa.Function) map[string]ssa.Instruction {
+	out := map[string]ssa.Instruction{}
+	var recvT types.Type
+	if target.Signature.Recv() != nil {
+		recvT = target.Signature.Recv().Type()
+	}
+	for _, fn := range c.P.RepoFuncs() {
+		if fn == target {
+			continue
+		}
+		an.Instrs(fn, func(in ssa.Instruction) {
+			for _, op := range in.Operands(nil) {
+				if op == nil || *op == nil {
+					continue
+				}
+				if f, ok := (*op).(*ssa.Function); ok && (f == target || f.Origin() == target) {
+					out[an.FnName(fn)] = in
+				}
+			}
+			if ci, ok := in.(ssa.CallInstruction); ok && ci.Common().IsInvoke() && recvT != nil && ci.Common().Method.Name() == target.Name() {
+				if it, ok := ci.Common().Value.Type().Underlying().(*types.Interface); ok && types.Implements(recvT, it) {
+					out[an.FnName(fn)] = in
+				}
+			}
+		})
+	}
+	return out
+}
+
+func c13callers(c *an.Ctx) {
+	table := []struct {
+		fn      string
+		callers []string
+		why     string
+	}{
+		{"(*Topic).PutMessage", []string{"(*nsqd.protocolV2).PUB", "(*nsqd.protocolV2).DPUB", "(*nsqd.httpServer).doPUB"}, "topic message_count/bytes count publishes"},
+		{"(*Topic).PutMessages", []string{"(*nsqd.protocolV2).MPUB", "(*nsqd.httpServer).doMPUB"}, "topic message_count/bytes count publishes"},
+		{"(*Channel).PutMessage", []string{"(*nsqd.Topic).messagePump"}, "a channel's message_count counts the messages arriving from its topic"},
+		{"(*Channel).PutMessageDeferred", []string{"(*nsqd.Topic).messagePump"}, "a channel's message_count counts the messages arriving from its topic"},
+		{"(*clientV2).SendingMessage", []string{"(*nsqd.protocolV2).messagePump"}, "in-flight/message counters move when a message is sent"},
+		{"(*clientV2).FinishedMessage", []string{"(*nsqd.protocolV2).FIN"}, "finish counter moves on FIN"},
+		{"(*clientV2).RequeuedMessage", []string{"(*nsqd.protocolV2).REQ"}, "requeue counter moves on REQ"},
+		{"(*clientV2).TimedOutMessage", []string{"(*nsqd.Channel).processInFlightQueue"}, "in-flight decremented when the message times out"},
+		{"(*clientV2).PublishedMessage", []string{"(*nsqd.protocolV2).PUB", "(*nsqd.protocolV2).MPUB", "(*nsqd.protocolV2).DPUB"}, "per-topic publish counts"},
+	}
+	for _, row := range table {
+		target := c.Fn("nsqd", row.fn)
+		if target == nil {
+			continue
+		}
+		want := map[string]bool{}
+		for _, w := range row.callers {
+			want[w] = true
+		}
+		got := usersOf(c, target)
+		var names []string
+		for n := range got {
+			names = append(names, n)
+		}
+		sort.Strings(names)
+		for _, n := range names {
+			c.Check(want[n], target, "caller of "+row.fn+": "+n, got[n].Pos(), "",
+				n+" calls "+row.fn+", which counts a transition ("+row.why+") that "+n+" does not perform: the counter drifts from the state it summarises")
+		}
+		for _, w := range row.callers {
+			if _, ok := got[w]; !ok {
+				c.Bad(target, "caller of "+row.fn+": "+w, target.Pos(), w+" no longer calls "+row.fn+": the transition is not counted", nil)
 			}
 		}
 	}
@@ -355,7 +430,10 @@ func c13mapping(c *an.Ctx) {
 					good = atomicLoadOf(v, c.P.Field("nsqd", recvType, want.name))
 				case "len":
 					// a local that was assigned len(recv.<name>)
-					good = an.OriginsAll(v, func(o ssa.Value) bool { a := lenArgOf(o); return a != nil && isLoadOfField(a, c.P.Field("nsqd", recvType, want.name)) })
+					good = an.OriginsAll(v, func(o ssa.Value) bool {
+						a := lenArgOf(o)
+						return a != nil && isLoadOfField(a, c.P.Field("nsqd", recvType, want.name))
+					})
 				case "call":
 					if call, ok := v.(*ssa.Call); ok {
 						if cf := an.StaticCallee(call); cf != nil && cf.Name() == want.name {
